@@ -10,9 +10,9 @@ THEOREMS = ["Drand.Daemon." + t for t in [
     "c14_detector_sees_prefix_deadlock",
     "c14_peer_recovers", "c14_control_does_not_recover",
     "c14_total_peer", "c14_total_control_wire", "c14_panic_sites", "c14_panic_keeps_state", "c14_wire_panics_peer_only",
-    "c14_phase_moves_legal", "c14_still_serves", "c14_still_serves_partial", "c14_still_serves_counterexample",
-    "c14_no_wedge_fixed", "c14_wedge_only_by_overflow",
-    "c14_beacon_total", "c14_beacon_wire_no_panic", "c14_beacon_stateless"]]
+    "c14_phase_moves_legal", "c14_still_serves", "c14_still_serves_histories", "c14_still_serves_partial",
+    "c14_still_serves_counterexample", "c14_wedge_only_by_overflow",
+    "c14_beacon_total", "c14_beacon_wire_no_panic", "c14_beacon_never_blocks"]]
 TRUSTED = [
     "Lean 4 kernel; axioms per theorem under coverage.axioms",
     "go2lean lock-fact walker (syntactic: Lock/RLock/Unlock/defer per method, receiver-internal same-goroutine calls; dies on unbalanced shapes), nil-dereference extractor (direct field chains vs getters, earlier `== nil` return guards), listener facts (interceptor chains, registered services) — regenerated every run, tied by tie_* / used by the theorems",
@@ -291,9 +291,17 @@ def contained_pairs(all_ops_outs):
 
 # ------------------------------------------------------------------------------------------------ running
 
-def run_impl(lines, seed, timeout=1500):
+def run_impl(lines, seed, timeout=900, confirm=None):
+    """confirm: seconds a call that missed the 5 s watchdog is given before it is declared hung (default 15)"""
     env = dict(os.environ, GOMEMLIMIT="6GiB")
-    rc, out, err = core.run_lines(H(), ["dispatch", str(seed)], lines, timeout, env)
+    args = ["dispatch", str(seed)] + ([str(confirm)] if confirm is not None else [])
+    import subprocess
+    try:
+        rc, out, err = core.run_lines(H(), args, lines, timeout, env)
+    except subprocess.TimeoutExpired as e:
+        so = e.stdout or b""
+        so = so.decode() if isinstance(so, bytes) else so
+        return -9, so.splitlines(), f"harness did not finish within {timeout} s"
     return rc, out, err
 
 
@@ -363,11 +371,14 @@ def explore(ctx, res):
     triples = []
     violated = False
 
-    # ---- corpus first: known-finding witnesses and the pre-fix witness
-    for name, c in corpus:
+    # ---- corpus first: known-finding witnesses and the pre-fix witness (witnesses known to hang get a short confirmation window)
+    from concurrent.futures import ThreadPoolExecutor
+    core.scratch()
+    with ThreadPoolExecutor(max_workers=4) as pool:
+        cruns = list(pool.map(lambda nc: run_impl(nc[1]["ops"], seed, 300, 2 if nc[1].get("signature") else None), corpus))
+    for (name, c), (rc, outs, err) in zip(corpus, cruns):
         ops = c["ops"]
         plain = [o for o in ops if not o.startswith("tarpit")]
-        rc, outs, err = run_impl(ops, seed, 300)
         outs = [strip(o) for o in outs]
         total += len(ops)
         sig = c.get("signature")
@@ -405,8 +416,6 @@ def explore(ctx, res):
                 validated += 1
 
     # ---- generated sequences: the implementation runs are independent processes, run them side by side
-    from concurrent.futures import ThreadPoolExecutor
-    core.scratch()
     with ThreadPoolExecutor(max_workers=min(8, os.cpu_count() or 4)) as pool:
         runs = list(pool.map(lambda ts: run_impl(ts[1], seed), seqs))
     for (tag, seq), (rc, outs, err) in zip(seqs, runs):
